@@ -65,6 +65,9 @@ func goList(ovf string, args ...string) ([]listPkg, error) {
 	if ovf != "" {
 		a = append(a, "-overlay", ovf)
 	}
+	if currentModfile != "" {
+		a = append(a, "-modfile", currentModfile)
+	}
 	a = append(a, args...)
 	cmd := exec.Command("go", a...)
 	cmd.Dir = repo
